@@ -2,6 +2,8 @@
 
 package memdb
 
+import "time"
+
 // C06: expiring keys disappear at their deadline and not before.
 // Differential oracle: a key with deadline "now + delta" probed by a command at the (frozen,
 // symbolic) instant "now" must behave exactly like the same key without a deadline when delta > 0,
@@ -392,3 +394,87 @@ func VF_C06_second_key() {
 	vfAssert(!jHas, name+"-deadline-moved-to-the-other-key")
 	vfAssert(vfLocksHeld() == 0, name+"-no-lock-left")
 }
+
+// ---------------------------------------------------------------------------
+// VF_C06_stale_timer: the per-key timer goroutine of a deadline that is gone (the key was deleted, or
+// overwritten, or made persistent, and possibly created again) must not touch the key when it fires: a key
+// without a deadline never disappears. Virtual time: the harness waits on a later timer, so the key's own
+// timer fires first. Natively the harness really waits.
+func VF_C06_stale_timer() {
+	vfOpt("timers", 8)
+	vfFreezeClock(1000)
+	m := hNewDb(2)
+	hExec(m, bs("set"), bs("k"), bs("v1"), bs("ex"), bs("2"))
+	switch vfChoice("how-the-deadline-went", 4) {
+	case 0:
+		hExec(m, bs("del"), bs("k"))
+		hExec(m, bs("set"), bs("k"), bs("v2"))
+	case 1:
+		hExec(m, bs("set"), bs("k"), bs("v2")) // plain SET drops the deadline
+	case 2:
+		hExec(m, bs("persist"), bs("k"))
+		hExec(m, bs("set"), bs("k"), bs("v2"), bs("keepttl"))
+	default:
+		hExec(m, bs("del"), bs("k"))
+		hExec(m, bs("rpush"), bs("k"), bs("v2"))
+	}
+	vfAssert(rvEq(hExec(m, bs("ttl"), bs("k")), vInt(-1)), "stale-timer-setup-no-deadline")
+	<-time.After(3 * time.Second)
+	vfSettle()
+	vfAssert(rvEq(hExec(m, bs("exists"), bs("k")), vInt(1)), "key-without-deadline-removed-by-a-stale-timer")
+	vfAssert(rvEq(hExec(m, bs("ttl"), bs("k")), vInt(-1)), "stale-timer-left-a-deadline")
+}
+
+// a deadline so far away that the timer's duration arithmetic wraps: the timer fires at once; the key
+// stays until its deadline
+func VF_C06_far_deadline() {
+	vfOpt("timers", 8)
+	vfFreezeClock(1000)
+	m := hNewDb(2)
+	hExec(m, bs("set"), bs("k"), bs("v"))
+	vfAssert(rvEq(hExec(m, bs("expire"), bs("k"), bs("10000000000")), vInt(1)), "far-deadline-accepted")
+	<-time.After(1 * time.Second)
+	vfSettle()
+	vfAssert(rvEq(hExec(m, bs("exists"), bs("k")), vInt(1)), "key-removed-long-before-its-deadline")
+}
+
+// VF_C06_expired_deadline_commands: the commands that work on the deadline itself (PERSIST, TTL, EXPIRE with
+// each option) meet a key whose deadline has passed but which has not been reaped yet (the timer goroutine
+// has not run): they answer as for a missing key, return (no self-deadlock on the key's stripe) and the
+// key is gone afterwards.
+func c06ExpiredDeadlineCommands() {
+	now := vfClockNow()
+	delta := vfInt64("delta")
+	vfAssume(delta >= -100000 && delta <= 0)
+	m := c06Build('s', true)
+	vfAssert(c06Install(m, "k", now+delta, true), "c06-deadline-installed")
+	var got rv
+	want := vInt(0)
+	switch vfChoice("cmd", 7) {
+	case 0:
+		got = hExec(m, bs("persist"), bs("k"))
+	case 1:
+		got = hExec(m, bs("ttl"), bs("k"))
+		want = vInt(-2)
+	case 2:
+		got = hExec(m, bs("expire"), bs("k"), bs("100"))
+	case 3:
+		got = hExec(m, bs("expire"), bs("k"), bs("100"), bs("nx"))
+	case 4:
+		got = hExec(m, bs("expire"), bs("k"), bs("100"), bs("xx"))
+	case 5:
+		got = hExec(m, bs("expire"), bs("k"), bs("100"), bs("gt"))
+	default:
+		got = hExec(m, bs("expire"), bs("k"), bs("100"), bs("lt"))
+	}
+	vfAssert(rvEq(got, want), "deadline-command-on-an-expired-key-answers-as-for-a-missing-key")
+	vfAssert(vfLocksHeld() == 0, "deadline-command-on-an-expired-key-no-lock-left")
+	vfAssert(rvEq(hExec(m, bs("exists"), bs("k")), vInt(0)), "expired-key-still-there-after-a-deadline-command")
+	_, has := m.ttlKeys.Get("k")
+	vfAssert(!has, "expired-key-deadline-record-left")
+}
+
+func VF_C06_expired_deadline_commands() { c06ExpiredDeadlineCommands() }
+
+// C04: none of them hangs
+func VF_C04_expired_deadline_commands() { c06ExpiredDeadlineCommands() }
